@@ -280,6 +280,10 @@ class UnitBuild:
             body, sha = carve_block(body, cv["token"], cv["call"])
             counts["R8"] = counts.get("R8", 0) + 1
             self.carved.append({"stub": cv["stub"], "token": cv["token"], "sha256": sha})
+        for cv in cfg.get("carve_if", []):
+            body, sha = carve_if(body, cv["token"], cv["call"])
+            counts["R8"] = counts.get("R8", 0) + 1
+            self.carved.append({"stub": cv["stub"], "token": cv["token"], "sha256": sha})
         run("R7", RW.r7_smallvec)
         if cfg.get("field_store"):
             run("R1b", RW.r1b_field_store)
@@ -367,6 +371,31 @@ def carve_block(body: str, token: str, call: str):
                 carved = body[T[o].start:T[i].end]
                 return body[:T[o].start] + "{ " + call + " }" + body[T[i].end:], _sha(re.sub(r"\s+", " ", carved))
     raise AnchorError(f"no block around `{token}`")
+
+
+def carve_if(body: str, token: str, call: str):
+    """R8: replace the whole `if COND {..} else {..}` expression whose condition contains `token` by `call`"""
+    T = code_toks(lex(body))
+    idx = [i for i, t in enumerate(T) if t.kind == "ident" and t.text == token]
+    if len(idx) != 1:
+        raise AnchorError(f"carve anchor `{token}` occurs {len(idx)} times")
+    i = idx[0]
+    while i >= 0 and not (T[i].kind == "ident" and T[i].text == "if"):
+        i -= 1
+    if i < 0:
+        raise AnchorError("no `if` before carve anchor")
+    j = idx[0]
+    while T[j].text != "{":
+        j += 1
+    e = match_close(T, j)
+    while e + 1 < len(T) and T[e + 1].text == "else":
+        k = e + 2
+        if T[k].text == "if":
+            while T[k].text != "{":
+                k += 1
+        e = match_close(T, k)
+    carved = body[T[i].start:T[e].end]
+    return body[:T[i].start] + call + body[T[e].end:], _sha(re.sub(r"\s+", " ", carved))
 
 
 def _indent(t: str, n: int) -> str:
